@@ -3,7 +3,7 @@ Everything here is *assumed* and cross-checked against CPython by pyvc.crosschec
 import enum
 import z3
 
-from .sym import (isz, is_symint, is_symreal, is_symbool, zi, zb, simp, as_const, as_bool_const, fresh_name,
+from .sym import (Rat, isz, is_symint, is_symreal, is_symbool, zi, zb, simp, as_const, as_bool_const, fresh_name,
                   Elems, Gen, Seq, seq_eq, seq_concat, SymEnum, Obj, PyList, PyDict, PySet, ExcVal, IntS, RealS,
                   byte_fact, char_fact, array_gen, nib_hi, nib_lo)
 from . import seqops
@@ -30,6 +30,16 @@ def crc_fn(n):
     if n not in CRC:
         CRC[n] = z3.Function(f"CRC_{n}", *([IntS] * (n + 2)))
     return CRC[n]
+
+
+CRCG = {}
+
+
+def crcg_fn(key):
+    k = repr(key)
+    if k not in CRCG:
+        CRCG[k] = z3.Function("CRCG_" + str(len(CRCG)) + "_" + "".join(c if c.isalnum() else "_" for c in k)[:40], IntS, IntS, IntS, IntS)
+    return CRCG[k]
 
 
 ROUND1 = z3.Function("ROUND1", RealS, RealS)        # round(x, 1)
@@ -90,14 +100,17 @@ def crc_hqx(ip, args, kw, ctx):
         return binascii.crc_hqx(data, init)
     s = seqops.concretize(Seq.of(data), ctx)
     if s.fixed():
-        ts = [zi(t) for t in s.terms()]
-        r = crc_fn(len(ts))(*ts, zi(init))
-    else:
-        key = (tuple((tuple(g.key), str(simp(zi(g.off))), str(simp(zi(g.length)))) if isinstance(g, Gen)
-                     else tuple(str(simp(zi(t))) for t in g.terms) for g in s.segs), str(init))
-        if key not in _CRC_MEMO:
-            _CRC_MEMO[key] = z3.Int(fresh_name("crc"))
-        r = _CRC_MEMO[key]
+        s = Seq(s.kind, [Elems(s.terms())])
+    # fold law: crc(a ++ b, v) = crc(b, crc(a, v)); one uninterpreted function per fixed arity / per opaque segment
+    r = zi(init)
+    for g in s.segs:
+        if isinstance(g, Elems):
+            r = crc_fn(len(g.terms))(*[zi(t) for t in g.terms], r)
+        else:
+            r = crcg_fn(g.key)(zi(g.off), zi(g.length), r)
+        ctx.fact(z3.And(r >= 0, r < 65536))
+    if not s.segs:
+        r = simp(r % 65536)
     ctx.fact(z3.And(r >= 0, r < 65536))
     return r
 
@@ -139,7 +152,8 @@ def struct_pack(ip, args, kw, ctx):
     inr = simp(z3.And(v >= 0, v < 256 ** n))
     if not ctx.branch(inr):
         _raise("struct.error", "argument out of range")
-    bs = [simp((v / (256 ** k)) % 256) if k else simp(v % 256) for k in range(n)]
+    from .sym import int_bytes
+    bs = int_bytes(v, n)
     if order == "be":
         bs = list(reversed(bs))
     return Seq('bytes', [Elems(bs)])
@@ -191,6 +205,11 @@ def b_int(ip, args, kw, ctx):
         return z3.If(v, 1, 0)
     if isinstance(v, float):
         return int(v)
+    if isinstance(v, Rat):
+        n = zi(v.n)
+        if v.d == 1:
+            return v.n
+        return simp(z3.If(n >= 0, n / v.d, -((-n) / v.d)))
     if is_symreal(v):
         # truncation toward zero
         ctx.used_models.add("int(float): truncation toward zero on the real-number model")
@@ -213,8 +232,8 @@ def b_float(ip, args, kw, ctx):
     if isinstance(v, (int, float)) and not isinstance(v, bool):
         return float(v)
     if is_symint(v):
-        return z3.ToReal(v)
-    if is_symreal(v):
+        return Rat(v, 1)
+    if is_symreal(v) or isinstance(v, Rat):
         return v
     raise _uns("float()")
 
@@ -242,11 +261,18 @@ def b_str(ip, args, kw, ctx):
 
 def b_divmod(ip, args, kw, ctx):
     a, b = args
-    if not isz(a) and not isz(b):
+    if not isz(a) and not isz(b) and not isinstance(a, Rat) and not isinstance(b, Rat):
         try:
             return divmod(a, b)
         except ZeroDivisionError:
             _raise("ZeroDivisionError")
+    if isinstance(a, Rat):
+        bc = b if isinstance(b, (int, float)) and not isinstance(b, bool) else None
+        if bc is None or bc <= 0 or bc != int(bc):
+            raise _uns("divmod of a quotient by a non-constant")
+        bc = int(bc)
+        q = simp(zi(a.n) / (a.d * bc))
+        return (Rat(q, 1), Rat(simp(zi(a.n) - bc * a.d * q), a.d))
     if is_symreal(a) or isinstance(a, float) or is_symreal(b) or isinstance(b, float):
         bc = b if isinstance(b, (int, float)) else None
         if bc is None or bc <= 0 or bc != int(bc):
@@ -264,8 +290,10 @@ def b_divmod(ip, args, kw, ctx):
 def b_round(ip, args, kw, ctx):
     x = args[0]
     nd = args[1] if len(args) > 1 else kw.get("ndigits")
-    if not isz(x) and not isz(nd):
+    if not isz(x) and not isz(nd) and not isinstance(x, Rat):
         return round(x, nd) if nd is not None else round(x)
+    if isinstance(x, Rat) and nd is None:
+        x = x.real()
     if nd is None:
         if is_symint(x):
             return x
@@ -275,7 +303,7 @@ def b_round(ip, args, kw, ctx):
         return r
     if nd == 1:
         ctx.used_models.add("round(x, 1): uninterpreted ROUND1(x) (validated on the whole 16-bit domain of watts)")
-        return ROUND1(_I()._toreal(x))
+        return ROUND1(simp(_I()._toreal(x)))
     raise _uns("round with ndigits")
 
 
